@@ -116,6 +116,7 @@ func runC13(c *eng.Ctx) {
 	next := func() (int, bool) { i := idxN; idxN++; return i, c.Mine(i) }
 	runC13Sequential(c, next)
 	runC13CloseVsClose(c, next)
+	runC13RootScope(c, next)
 	// (b) overlaps
 	reps := c.Pick(1, 6)
 	for _, sc := range overlapScenarios() {
